@@ -64,3 +64,82 @@ Example c09_example :
   snd (bring_up 13) = [Some [0; 0; 0; 4]; Some [0; 0; 1; 0; 0; 13]] /\ b_handler (fst (bring_up 200)) = 14
   /\ snd (bring_up 6) = [Some [0; 0; 0; 4]; Some [0; 0; 0xFF; 0; 0; 6]].
 Proof. vm_compute. repeat split. Qed.
+
+(* ---- the tie to the source text --------------------------------------------------------------------
+   gen/GenBringupFn.v is emitted on every run from the Python AST of EZSP.startup_reset / reset / version /
+   _switch_protocol_version / _command / start_ezsp / stop_ezsp / connect / __init__
+   (bellows/ezsp/__init__.py): one Gallina function per method over the state (_ezsp_version, VERSION of
+   the protocol handler object, _ezsp_event set, effects so far); the outcome of every await is an
+   argument (the version the NCP reports; whether the reset wait / the reset handshake times out);
+   `if version not in self._BY_VERSION: version = EZSP_LATEST` and `if ver != self.ezsp_version:` are
+   emitted as written, over the keys of the live dict and the live constant.  Effects: BReset (the ASH
+   reset handshake), BNewHandler v (a new handler object of class VERSION v), BRunning b (start / stop),
+   BCommand name arg h (the command issued through the handler object of VERSION h).  [replay] turns
+   effects into the frames the handler objects build (a new object starts at sequence number
+   py_handler_seq_init, a command advances it: both read from ProtocolHandler's source).
+   Below v, the version the NCP reports, is ANY number. *)
+Require Import BV.gen.GenBringupFn BV.proofs.BringupSrc_proofs.
+From Coq Require Import String.
+
+(* EZSP.version() from any running state: the query goes through the handler in use and asks for the
+   current version; the reported version is adopted (its own tables when supported, else the newest) and
+   confirmed through the adopted handler exactly when it differs; state and frames are [do_version]'s *)
+Theorem c09_source_version : forall st v x eff, b_handler st <> 0 -> b_running st = true ->
+  py_EZSP_version_k (b_version st, b_handler st, true, eff) (AVal v) (AVal x)
+    = (b_version (fst (do_version st v)), b_handler (fst (do_version st v)), true,
+       eff ++ BCommand "version" (b_version st) (b_handler st) ::
+              (if v =? b_version st then [] else [BNewHandler (adopted v); BCommand "version" v (adopted v)]),
+       ORet 0)
+  /\ replay (b_seq st) (version_effs (b_version st) (b_handler st) v)
+       = (b_seq (fst (do_version st v)), snd (do_version st v)).
+Proof. exact src_version_model. Qed.
+
+(* the whole bring-up (__init__, connect, startup_reset) on a serial path (tcp = false) or a socket path
+   (tcp = true; the start-up reset is seen, w = AVal _, or the wait times out): it returns normally with
+   _ezsp_version = v and the handler adopted for v, EZSP running; the first query is issued through the v4
+   handler asking for 4, the second, iff v <> 4, through the adopted handler asking for v; the frames and
+   the final state are those of [bring_up v], about which the theorems above speak *)
+Theorem c09_source_bring_up : forall tcp w r v x, (tcp = true -> w <> AOtherError) ->
+  py_EZSP_startup_reset_k py_connected tcp w (AVal r) (AVal v) (AVal x)
+    = (v, adopted v, true,
+       [BNewHandler 4]
+       ++ (if tcp then [BWaitStartupReset (Some py_NETWORK_COORDINATOR_STARTUP_RESET_WAIT)] else [])
+       ++ (if reset_seen tcp w then [BRunning true] else [BRunning false; BReset; BNewHandler 4; BRunning true])
+       ++ BCommand "version" 4 4 :: (if v =? 4 then [] else [BNewHandler (adopted v); BCommand "version" v (adopted v)]),
+       ORet 0)
+  /\ bring_up v = ({| b_version := v; b_handler := adopted v; b_running := true;
+                      b_seq := fst (replay 0 (bringup_effs tcp w v)) |},
+                   snd (replay 0 (bringup_effs tcp w v))).
+Proof. exact src_bring_up. Qed.
+
+(* EZSP.reset() from ANY state: stop, reset handshake, back to the v4 handler (a new object: sequence
+   number 0) and version 4, only then start -- the state is [do_reset]'s *)
+Theorem c09_source_reset_falls_back : forall st x eff,
+  py_EZSP_reset_k (b_version st, b_handler st, b_running st, eff) (AVal x)
+    = (b_version (do_reset st), b_handler (do_reset st), b_running (do_reset st),
+       eff ++ [BRunning false; BReset; BNewHandler 4; BRunning true], ORet 0)
+  /\ replay (b_seq st) reset_effs = (b_seq (do_reset st), []).
+Proof. exact src_reset_model. Qed.
+
+(* and the negotiation after a later reset is the first one again *)
+Theorem c09_source_reset_then_version : forall st r v x eff,
+  let '(zv, h, run, eff1, _) := py_EZSP_reset_k (b_version st, b_handler st, b_running st, eff) (AVal r) in
+  py_EZSP_version_k (zv, h, run, eff1) (AVal v) (AVal x)
+    = (b_version (fst (bring_up v)), b_handler (fst (bring_up v)), true,
+       eff ++ reset_effs ++ version_effs 4 4 v, ORet 0)
+  /\ replay (b_seq st) (reset_effs ++ version_effs 4 4 v) = (b_seq (fst (bring_up v)), snd (bring_up v)).
+Proof. exact src_reset_then_version. Qed.
+
+(* a reset handshake that fails leaves EZSP stopped, and a stopped EZSP refuses a command without sending it *)
+Theorem c09_source_reset_failed : forall zv h run eff r, r = ATimeoutError \/ r = AOtherError ->
+  exists e, py_EZSP_reset_k (zv, h, run, eff) r = (zv, h, false, eff ++ [BRunning false; BReset], OExn e).
+Proof. exact src_reset_failed. Qed.
+
+Theorem c09_source_command_not_running : forall zv h eff name arg a, h <> 0 ->
+  py_EZSP__command_k (zv, h, false, eff) name arg a = (zv, h, false, eff, OExn XEzspError).
+Proof. exact src_command_not_running. Qed.
+
+Example c09_source_example :
+  snd (replay 0 (bringup_effs false ATimeoutError 13)) = [Some [0; 0; 0; 4]; Some [0; 0; 1; 0; 0; 13]]
+  /\ snd (replay 0 (bringup_effs true (AVal 0) 200)) = [Some [0; 0; 0; 4]; Some [0; 0; 1; 0; 0; 200]].
+Proof. vm_compute. split; reflexivity. Qed.
